@@ -669,6 +669,42 @@ def sample_sentences(rng, g, start, n, maxlen=8):
     return out
 
 
+def gen_hidden_rec(rng, T, nts):
+    """a cycle X0 -> N.. X1 .., X1 -> N.. X2 .., .., Xk -> N.. X0 .. behind nullable prefixes; with probability
+    1/2 one prefix symbol is made non-nullable (no recursion then). Names come permuted from the pool, so the
+    nullable prefix sorts before / after the recursive symbol."""
+    n = len(nts)
+    k = rng.randint(1, max(1, min(3, n)))
+    cyc = rng.sample(nts, k)
+    others = [x for x in nts if x not in cyc]
+    g = {nt: [] for nt in nts}
+    broken = rng.random() < 0.5
+    break_at = rng.randrange(k)
+    for i, x in enumerate(cyc):
+        pre = [rng.choice(others) for _ in range(rng.randint(0, 2))] if others else []
+        if broken and i == break_at:
+            if pre and rng.random() < 0.5:
+                g.setdefault("_nonnull", []).append(pre[0])
+            else:
+                pre = pre + [rng.choice(T)]
+        tail = [rng.choice(T + nts) for _ in range(rng.randint(0, 2))]
+        g[x].append(pre + [cyc[(i + 1) % k]] + tail)
+        g[x].append([rng.choice(T)] + [rng.choice(T + others) for _ in range(rng.randint(0, 1))])
+        rng.shuffle(g[x])
+    nonnull = set(g.pop("_nonnull", []))
+    for o in others:
+        alts = [[rng.choice(T)] + [rng.choice(T) for _ in range(rng.randint(0, 1))]]
+        if o not in nonnull:
+            if rng.random() < 0.7:
+                alts.append([])
+            else:
+                oo = [x for x in others if x != o]
+                alts.append([rng.choice(oo)] if oo and rng.random() < 0.5 else [])
+        rng.shuffle(alts)
+        g[o] = alts
+    return [[nt, _dedupe(g[nt])] for nt in nts]
+
+
 def gen_malformed(rng, T, nts):
     g = gen_nonleftrec(rng, T, nts)
     kind = rng.choice(["unknown-symbol", "no-start", "nt-is-terminal", "dunder", "duplicate-alt", "end-used",
@@ -740,7 +776,7 @@ def make_case(spec, var_name, words, texts, meta, diags=("prods", "suffix", "tab
     return {"lines": lines, "meta": m, "lexmap": dict(var["lex"])}
 
 
-def gen_spec(rng, malformed_share=0.05):
+def gen_spec(rng, malformed_share=0.05, hidden_share=0.04):
     """-> (spec, variant name, meta)"""
     var_name = rng.choice(["plain"] * 4 + ["syn", "kw", "synkw", "noskip"])
     var = VARIANTS[var_name]
@@ -754,6 +790,8 @@ def gen_spec(rng, malformed_share=0.05):
     if r < malformed_share:
         g, kind = gen_malformed(rng, T, nts)
         gen = "malformed"
+    elif r < malformed_share + hidden_share:
+        g, gen = gen_hidden_rec(rng, T, nts), "hiddenrec"
     elif r < 0.25:
         g, gen = gen_unbiased(rng, T, nts), "unbiased"
     elif r < 0.50:
@@ -773,9 +811,10 @@ def gen_spec(rng, malformed_share=0.05):
     return spec, var_name, meta
 
 
-def gen_ll_cases(rng, n_grammars, maxlen, extra_long=0, rec_maxlen=2, malformed_share=0.05, sentences=25):
+def gen_ll_cases(rng, n_grammars, maxlen, extra_long=0, rec_maxlen=2, malformed_share=0.05, sentences=25,
+                 hidden_share=0.04, diags=("prods", "suffix", "table", "nullables", "first", "follow")):
     for _ in range(n_grammars):
-        spec, var_name, meta = gen_spec(rng, malformed_share)
+        spec, var_name, meta = gen_spec(rng, malformed_share, hidden_share)
         var = VARIANTS[var_name]
         ok = clean(spec)
         rec = ok and left_rec(user_grammar(spec))
@@ -789,7 +828,7 @@ def gen_ll_cases(rng, n_grammars, maxlen, extra_long=0, rec_maxlen=2, malformed_
             for _ in range(extra_long):
                 words.append([rng.choice(var["T"]) for _ in range(rng.randint(maxlen + 1, maxlen + 4))])
         texts = [render(rng, var, w) for w in words]
-        yield make_case(spec, var_name, words, texts, meta)
+        yield make_case(spec, var_name, words, texts, meta, diags=diags)
 
 
 def tiny_grammars(rng, max_nt=2, max_alts=3, max_len=3, terminals=("a", "b"), limit=None, inputs_len=5):
